@@ -81,8 +81,14 @@ def main():
         sh("rm -f /verif/replays/*.json")
     rec["checks"] = results
     rec["caught_by"] = [c for c, r in results.items() if r["exit"] != 0]
-    shutil.copy(patch, os.path.join(out, "patch.diff"))
-    shutil.copy(demo, os.path.join(out, os.path.basename(demo)))
+    # checks that produced an input on which the property itself fails (not only a broken correspondence)
+    rec["with_failing_input"] = [c for c, r in results.items()
+                                 if any(l.startswith("VIOLATION") and not l.rstrip().endswith("no-failing-input-found") for l in r["lines"])]
+    if "history" in meta_in:
+        rec["history"] = meta_in["history"]
+    if os.path.abspath(sdir) != os.path.abspath(out):
+        shutil.copy(patch, os.path.join(out, "patch.diff"))
+        shutil.copy(demo, os.path.join(out, os.path.basename(demo)))
     json.dump(rec, open(os.path.join(out, "meta.json"), "w"), indent=1)
     print(json.dumps({k: rec[k] for k in ("id", "existing_tests_pass", "demo_fails_with_change", "demo_passes_without_change", "caught_by")}, indent=0))
     for c, r in results.items():
